@@ -1233,7 +1233,8 @@ def unit_pipeline(ctx):
     spec_read = [[int(x) for x in o.split("|")[1].split()[1:]] for o in spec_out]
     spec_chain = [[int(x) for x in o.split("|")[2].split()[1:]] for o in spec_out]
     pout = lib.run_model_parallel("C14", [model_pipeline_line(c, sc) for c, sc in zip(cases, spec_chain)])
-    results = run_parallel(cases, budget_s=1200 if ctx.thorough else 60)
+    results = run_parallel(cases, budget_s=1200 if ctx.thorough else 60,
+                           batch_deadline_s=None if ctx.thorough else 150)
     if len(results) < len(cases):
         ctx.notes.append("pipeline: wall-clock budget reached after %d of %d generated cases" % (len(results), len(cases)))
         cases, spec_read, pout = cases[:len(results)], spec_read[:len(results)], pout[:len(results)]
@@ -1333,7 +1334,7 @@ def _one(args):
         return "EXC " + traceback.format_exc()
 
 
-def run_parallel(cases, budget_s=80):
+def run_parallel(cases, budget_s=80, batch_deadline_s=None):
     """run the implementation on the cases in batches; no new batch is started after the wall-clock budget
     (a prefix of the generated cases is then evaluated: fewer cases, never a different verdict).  A case whose
     worker hangs or dies (strax threads that never return) is marked as timed out and skipped; the pool is
@@ -1349,13 +1350,13 @@ def run_parallel(cases, budget_s=80):
     batch = 4 * nproc
     todo = list(enumerate(cases))
     for lo in range(0, len(todo), batch):
-        if lo >= 2 * batch and time.time() - t0 > budget_s:
+        if lo >= batch and time.time() - t0 > budget_s:
             break
         pool = mp.get_context("fork").Pool(nproc)
         stuck = False
         try:
             handles = [pool.apply_async(_one, (x,)) for x in todo[lo:lo + batch]]
-            deadline = time.time() + 3 * GET_TIMEOUT_S + 120
+            deadline = time.time() + (batch_deadline_s or (3 * GET_TIMEOUT_S + 120))
             for h in handles:
                 try:
                     out.append(h.get(timeout=max(5.0, deadline - time.time())))
@@ -1440,56 +1441,157 @@ def unit_findings(ctx):
 # unit: redefinition histories
 # ------------------------------------------------------------------------------------------
 
-def run_history(layout, rechunk, orders, tag):
-    """define the superrun as each of `orders` in turn, get it every time; returns (failure reason or None,
-    list of is_stored flags seen before each get)"""
+def enc_history(ops):
+    """ops -> the model driver's `history` line (the model sees definitions and storing / non-storing gets)"""
+    out = ["history"]
+    write = True
+    for op in ops:
+        if op["op"] == "define":
+            out += ["0", str(len(op["runs"]))] + [str(r) for r in op["runs"]]
+        elif op["op"] == "write":
+            write = op["on"]
+        elif op["op"] in ("get", "make"):
+            out += ["1", "1" if write else "0"]
+    return " ".join(out)
+
+
+def run_history(layout, rechunk, ops, tag, model_trace=None):
+    """One long-lived real Context A on a fresh directory; after EVERY step a second, fresh Context B on the same
+    directory.  ops: {"op": "define", "name": "a"|"_a", "form": "list"|"tuple"|"dict", "runs": [...]},
+    {"op": "get"}, {"op": "make"}, {"op": "write", "on": bool}, {"op": "is_stored"}, {"op": "key"}.
+    After every step the clause "redefining the superrun makes previously stored superrun data unavailable rather
+    than stale" is evaluated on A:
+      K  the key of the superrun equals the key the fresh context computes for the current definition,
+      S  is_stored only if the stored data records exactly the sub-runs of the current definition
+         (and: is_stored as in the fresh context, and as the model's history machine says),
+      G  get_array = the concatenation of the CURRENT sub-runs in order of run start.
+    Returns (reason or None, index of the failing step, is_stored trace)."""
     quiet()
     d = fresh_dir(tag)
-    seen = []
+    trace = []
+    plugins = [Src, mk_level("l1", "src", True, rechunk, 2)]
     try:
         for r, chunks in layout.items():
             LAYOUT[r] = [(s, e, [tuple(x) for x in rows]) for s, e, rows in chunks]
-        st = mk_context(d, [Src, mk_level("l1", "src", True, rechunk, 2)], True)
+        A = mk_context(d, plugins, True)
         for r, chunks in layout.items():
-            write_run(st, r, chunks[0][0], chunks[-1][1])
-        made = set()
-        for order in orders:
-            spec = sorted(order)
-            st.define_run("_a", [str(r) for r in order])
-            stored = bool(st.is_stored("_a", "l1"))
-            seen.append(stored)
-            if stored != (tuple(spec) in made):
-                return ("after redefining the superrun as %s, is_stored is %s although data was %s under this "
-                        "sub-run set" % (order, stored, "made" if tuple(spec) in made else "never made")), seen
+            write_run(A, r, chunks[0][0], chunks[-1][1])
+        current = None
+        mi = 0       # index into the model trace (one entry per define / get / make)
+        for i, op in enumerate(ops):
+            kind = op["op"]
             try:
-                with time_limit(GET_TIMEOUT_S):
-                    got = impl.ids_of(st.get_array("_a", "l1", progress_bar=False, multi_run_progress_bar=False,
-                                                   processor="single_thread"))
+                if kind == "define":
+                    ids = [str(r) for r in op["runs"]]
+                    data = {"list": ids, "tuple": tuple(ids), "dict": {r: "all" for r in ids}}[op["form"]]
+                    A.define_run(op["name"], data)
+                    current = sorted(set(op["runs"]), key=lambda r: layout[str(r)][0][0])
+                elif kind == "write":
+                    A.set_context_config({"write_superruns": bool(op["on"])})
+                elif kind in ("get", "make") and current is not None:
+                    with time_limit(GET_TIMEOUT_S):
+                        if kind == "get":
+                            got = impl.ids_of(A.get_array("_a", "l1", progress_bar=False, multi_run_progress_bar=False,
+                                                          processor="single_thread"))
+                            want = [x for r in current for (_, _, rows) in layout[str(r)] for (_, _, x, _) in rows]
+                            if got != want:
+                                return ("step %d: get_array returned rows %s, the current sub-runs %s hold %s (stale "
+                                        "or wrong data)" % (i, got, current, want)), i, trace
+                        else:
+                            A.make("_a", "l1", progress_bar=False, multi_run_progress_bar=False, processor="single_thread")
+                if current is None:
+                    continue
+                # ---- the predicates, after every step
+                B = mk_context(d, plugins, True)
+                ka, kb = A.key_for("_a", "l1"), B.key_for("_a", "l1")
+                if (ka._run_id, ka.data_type, ka.lineage_hash) != (kb._run_id, kb.data_type, kb.lineage_hash):
+                    return ("step %d (%s): this context computes the key %s for the superrun, a fresh context on the "
+                            "same directory computes %s for the current definition %s"
+                            % (i, kind, str(ka), str(kb), current)), i, trace
+                sa, sb = bool(A.is_stored("_a", "l1")), bool(B.is_stored("_a", "l1"))
+                if kind in ("define", "get", "make"):
+                    trace.append(sa)
+                if sa != sb:
+                    return ("step %d (%s): is_stored is %s in this context, %s in a fresh context on the same directory"
+                            % (i, kind, sa, sb)), i, trace
+                if sa:
+                    md = A.get_metadata("_a", "l1")
+                    recorded = sorted({ident(k) for ci in md["chunks"] for k in (ci.get("subruns") or {})})
+                    if recorded != sorted(current):
+                        return ("step %d (%s): the superrun is_stored, but the stored data records the sub-runs %s, the "
+                                "current definition is %s (stale)" % (i, kind, recorded, sorted(current))), i, trace
+                if model_trace is not None and kind in ("define", "get", "make"):
+                    if mi < len(model_trace) and sa != model_trace[mi]:
+                        return ("step %d (%s): is_stored is %s, the history model says %s"
+                                % (i, kind, sa, model_trace[mi])), i, trace
+                    mi += 1
             except CaseTimeout:
-                return None, seen
+                return None, i, trace
             except Exception as e:  # noqa
-                return ("after redefining the superrun as %s get_array raised %s: %s"
-                        % (order, type(e).__name__, str(e)[:200])), seen
-            want = [i for r in spec for (_, _, rows) in layout[str(r)] for (_, _, i, _) in rows]
-            if got != want:
-                return ("after redefining the superrun as %s get_array returned rows %s, its sub-runs hold %s "
-                        "(stale or wrong data)" % (order, got, want)), seen
-            md = st.get_metadata("_a", "l1")
-            recorded = sorted({ident(k) for ci in md["chunks"] for k in (ci.get("subruns") or {})})
-            if recorded != spec:
-                return "stored superrun data records sub-runs %s, the definition is %s" % (recorded, spec), seen
-            made.add(tuple(spec))
-        return None, seen
+                return "step %d (%s) raised %s: %s" % (i, kind, type(e).__name__, str(e)[:200]), i, trace
+        return None, len(ops), trace
     finally:
         shutil.rmtree(d, ignore_errors=True)
 
 
+def gen_history(rng, runs, n_ops):
+    ops = []
+    spec = rng.sample(runs, rng.randint(2, 3))
+    name = rng.choice(["a", "_a"])
+
+    def define(sp):
+        order = list(sp)
+        rng.shuffle(order)
+        # mostly the same spelling of the name as before, sometimes the other one
+        nm = name if rng.random() < 0.7 else rng.choice(["a", "_a"])
+        return {"op": "define", "name": nm, "form": rng.choice(["list", "tuple", "dict"]), "runs": order}
+    ops.append(define(spec))
+    while len(ops) < n_ops:
+        u = rng.random()
+        if u < 0.40:
+            v = rng.random()
+            if v < 0.35 and len(spec) > 1:
+                spec = rng.sample(spec, len(spec) - 1)                       # fewer
+            elif v < 0.65 and len(spec) < len(runs):
+                spec = spec + [rng.choice([r for r in runs if r not in spec])]  # more
+            elif v < 0.85:
+                spec = list(spec)                                             # the same sub-runs, other order
+            else:
+                spec = rng.sample(runs, rng.randint(1, 3))
+            ops.append(define(spec))
+        elif u < 0.70:
+            ops.append({"op": "get"})
+        elif u < 0.80:
+            ops.append({"op": "make"})
+        elif u < 0.88:
+            ops.append({"op": "write", "on": rng.random() < 0.6})
+        elif u < 0.94:
+            ops.append({"op": "is_stored"})
+        else:
+            ops.append({"op": "key"})
+    ops.append({"op": "get"})
+    return ops
+
+
+# the classic sequences, with both spellings of the superrun's name
+FIXED_HISTORIES = [
+    [{"op": "define", "name": nm, "form": "list", "runs": [1, 2, 3]}, {"op": "get"},
+     {"op": "define", "name": nm, "form": "list", "runs": [1, 2]}, {"op": "is_stored"}, {"op": "get"},
+     {"op": "define", "name": nm, "form": "dict", "runs": [3, 2, 1]}, {"op": "get"},
+     {"op": "write", "on": False}, {"op": "define", "name": nm, "form": "tuple", "runs": [2, 3, 4]}, {"op": "get"},
+     {"op": "write", "on": True}, {"op": "make"}, {"op": "define", "name": nm, "form": "list", "runs": [1, 2]}, {"op": "get"}]
+    for nm in ("a", "_a")]
+
+
 def unit_redefinition(ctx):
-    n_hist = 40 if ctx.thorough else 5
+    n_hist = 40 if ctx.thorough else 6
+    n_ops = 14 if ctx.thorough else 10
     dist = {}
     nontriv = 0
-    for h in range(n_hist):
-        runs = [1, 2, 3, 4]
+    n_steps = 0
+    runs = [1, 2, 3, 4]
+    hists = []
+    for h in range(n_hist + len(FIXED_HISTORIES)):
         t = 0
         first_id = 0
         layout = {}
@@ -1502,20 +1604,26 @@ def unit_redefinition(ctx):
                 fixed.append((cur, cur + (e - s), [(a - s + cur, b - s + cur, i, ch) for (a, b, i, ch) in rows]))
                 cur += e - s
             layout[str(r)] = fixed
-            t = cur
-        rechunk = ctx.rng.random() < 0.5
-        orders = []
-        for step in range(6):
-            order = ctx.rng.sample(runs, ctx.rng.randint(1, 3))
-            orders.append(order)
-        reason, seen = run_history(layout, rechunk, orders, "redef%d" % h)
+            t = cur + ctx.rng.choice([0, 0, 700])
+        ops = FIXED_HISTORIES[h] if h < len(FIXED_HISTORIES) else gen_history(ctx.rng, runs, n_ops)
+        hists.append((layout, ctx.rng.random() < 0.5, ops))
+    mtraces = [[x == "1" for x in o.split()] for o in lib.run_model("C14", [enc_history(ops) for _, _, ops in hists])]
+    rep = Reporter(ctx, "redefinition")
+    for h, ((layout, rechunk, ops), mt) in enumerate(zip(hists, mtraces)):
+        reason, at, trace = run_history(layout, rechunk, ops, "redef%d" % h, model_trace=mt)
+        n_steps += len(ops)
         if reason:
-            ctx.violation("redefinition", reason,
-                          {"input": {"layout": layout, "rechunk": rechunk, "orders": orders}, "unit": "redefinition"})
-        for f in seen:
-            dist["stored_before=%s" % f] = dist.get("stored_before=%s" % f, 0) + 1
-        nontriv += len(seen)
-    ctx.count("redefinition", n_hist * 6, nontriv, dist)
+            rep.violation(reason, {"input": {"layout": layout, "rechunk": rechunk, "history": ops[:at + 1]},
+                                   "unit": "redefinition"})
+        else:
+            nontriv += sum(1 for o in ops if o["op"] == "define")
+        for o in ops:
+            k = o["op"] + ((" name=" + o["name"] + " " + o["form"]) if o["op"] == "define" else "")
+            dist[k] = dist.get(k, 0) + 1
+        for f in trace:
+            dist["is_stored=%s" % f] = dist.get("is_stored=%s" % f, 0) + 1
+    ctx.count("redefinition", n_steps, nontriv, dist)
+    ctx.sample({"unit": "redefinition", "case": hists[-1][2], "model": mtraces[-1]})
 
 
 UNITS = {"annot_ctor": unit_ctor, "annot_split": unit_split, "annot_concat": unit_concat, "annot_merge": unit_merge,
@@ -1574,8 +1682,7 @@ def replay(ctx, obj):
                 reasons.append(check_exact(case, parse_shows(s), "stored"))
         reason = next((x for x in reasons if x), None)
     elif unit == "redefinition":
-        reason, seen = run_history(case["layout"], case["rechunk"], case["orders"], "replay")
-        out = seen
+        reason, at, out = run_history(case["layout"], case["rechunk"], case["history"], "replay")
     elif unit == "annot_concat":
         c = case["chunk"]
         cs, bad = build_all([c])
